@@ -1,0 +1,40 @@
+//! Verification hooks, compiled only with `--cfg helgoboss_midi_verif`.
+//!
+//! Provides a drop-in replacement for `std::time::Instant` whose clock is a thread-local counter
+//! driven by the verification harness, so that histories fed to the polling scanner can contain
+//! explicit time steps.
+use core::cell::Cell;
+use core::time::Duration;
+
+std::thread_local! {
+    static NOW_NANOS: Cell<u64> = Cell::new(0);
+}
+
+/// Sets the mock clock of the current thread (nanoseconds since an arbitrary origin).
+pub fn set_now_nanos(nanos: u64) {
+    NOW_NANOS.with(|c| c.set(nanos));
+}
+
+/// Returns the mock clock of the current thread.
+pub fn now_nanos() -> u64 {
+    NOW_NANOS.with(|c| c.get())
+}
+
+/// Mock of `std::time::Instant` (same derives as the scanner state needs).
+#[derive(Copy, Clone, Eq, PartialEq, Ord, PartialOrd, Hash, Debug)]
+pub struct Instant(u64);
+
+impl Instant {
+    pub fn now() -> Instant {
+        Instant(now_nanos())
+    }
+
+    /// Like `std::time::Instant::elapsed`, saturating at zero.
+    pub fn elapsed(&self) -> Duration {
+        Duration::from_nanos(now_nanos().saturating_sub(self.0))
+    }
+
+    pub fn nanos(&self) -> u64 {
+        self.0
+    }
+}
